@@ -310,7 +310,9 @@ func runC09(c *an.Ctx) {
 		} else {
 			// fall back to the call sites
 			var bad []string
-			for _, s := range c.P.CallSites(func(in ssa.Instruction) bool { return an.IsCallTo(in, cf) || an.IsCallToMethod(in, fullPT, "TransactionState", "CaptureField") }) {
+			for _, s := range c.P.CallSites(func(in ssa.Instruction) bool {
+				return an.IsCallTo(in, cf) || an.IsCallToMethod(in, fullPT, "TransactionState", "CaptureField")
+			}) {
 				f := an.FactsAt(s.Call)
 				if !f.HasSuffix(".Capturing()", "==", "true") && !f.HasSuffix(".Capture", "==", "true") {
 					bad = append(bad, an.RelName(s.Fn))
